@@ -143,6 +143,16 @@ def polarity(t, is_leaf, positive=(), depth=0):
         if all(p == ZERO for p in ps) and pf == ZERO:
             return ZERO
         return BOTH
+    if k == 'comp':
+        # [f(e) for e in it]: orientation of the element expression, provided the
+        # iteration sources do not depend on the leaf
+        for (it, ifs) in t[3]:
+            if polarity(it, is_leaf, positive, d) != ZERO or \
+                    any(polarity(c, is_leaf, positive, d) != ZERO for c in ifs):
+                return BOTH
+        return polarity(t[2], is_leaf, positive, d)
+    if k == 'elem':
+        return polarity(t[1], is_leaf, positive, d)
     if k in ('cmp', 'bool'):
         cs = children(t)
         return ZERO if all(polarity(c, is_leaf, positive, d) == ZERO for c in cs) else BOTH
